@@ -93,6 +93,15 @@ def gen_cases(tier, rng):
                     f2 = frags[:pos] + [frags[j]] + frags[pos:]
                     cases.append({"id": "gs%ddup/%d/%d/%d" % (ver, g["seed"], j, pos), "hex": gs_case(ver, 7777, 0, None, head + f2),
                                   "meta": {"stream": "gamespy%d-duplicate" % ver, "expected": "Ok(" + g["expected"] + ")", "k": k}})
+            # a duplicate inserted at every position of every arrival order (3 and 4 fragments)
+            if k in (3, 4) and nsp <= (8 if tier == "quick" else 80):
+                for pi, perm in enumerate(itertools.permutations(range(k))):
+                    order = [frags[j] for j in perm]
+                    for j in range(k):
+                        for pos in range(k + 1):
+                            f2 = order[:pos] + [frags[j]] + order[pos:]
+                            cases.append({"id": "gs%dpermdup/%d/%d/%d/%d" % (ver, g["seed"], pi, j, pos), "hex": gs_case(ver, 7777, 0, None, head + f2),
+                                          "meta": {"stream": "gamespy%d-reordered-duplicate" % ver, "expected": "Ok(" + g["expected"] + ")", "k": k}})
     return cases
 
 
